@@ -263,7 +263,10 @@ def np_quantities(Rm, A):
         X[:n - 1, :n - 1] = np.linalg.solve(L[:n - 1, :n - 1], np.eye(n - 1))
     dX = np.diag(X)
     ER = dX[:, None] - X.T - X + dX[None, :]
-    P = np.linalg.solve(L + 1.0 / n, np.eye(n)) - 1.0 / n
+    # pinv(L) = (L + a 11^T)^-1 - 11^T/(a n^2) for any a != 0; take a of the magnitude of L's entries
+    # so that the shifted matrix stays well conditioned at every resistance scale
+    a = float(np.abs(np.diag(L)).mean()) / n if n else 1.0
+    P = np.linalg.solve(L + a, np.eye(n)) - 1.0 / (a * n * n)
     deg = A.sum(axis=1)
     out = {"G": G, "L": L, "ER": ER, "P": P, "ad": ad}
     with np.errstate(all="ignore"):
